@@ -572,6 +572,31 @@ static std::string doTransparent(const std::vector<std::string>& t) {
     std::unique_ptr<P> pc(mk(api, sc)), pf(mk(api, sc));
     HistState hs, hf;
     for (size_t i = 7; i < t.size(); i++) { applyOp(pc.get(), t[i], hs, false); applyOp(pf.get(), t[i], hf, false); }
+    if (mode == "nh") {
+        // preloaded grammar, document WITHOUT a schema location hint (t[6] = "<doc-without-hint>,<doc-with-hint>") against
+        // a fresh parser reading the hinted twin with the grammar inline: only the verdicts (severity + message) are compared
+        std::vector<std::string> dd = splitc(t[6], ',');
+        if (dd.size() != 2) return "bad-request";
+        applyOp(pc.get(), "lg:" + t[4] + ":" + t[5] + ":1", hs, false);
+        pc->set("usecache", 1);
+        auto verdicts = [](const std::string& errs) {
+            std::vector<std::string> v; std::string cur;
+            for (char ch : errs + " ") {
+                if (ch == ' ') {
+                    if (!cur.empty()) { size_t a = cur.find('@'), b = cur.rfind('@'); v.push_back(cur.substr(0, a) + cur.substr(b)); }
+                    cur.clear();
+                } else cur += ch;
+            }
+            std::sort(v.begin(), v.end());
+            std::string out; for (auto& x : v) out += x + " "; return out;
+        };
+        std::string h1 = finalParse(pc.get(), dd[0]).substr(0, 2);
+        std::string A = h1 + " R[" + verdicts(pc->rec.errs) + "]";
+        int nEv = pc->rec.nEv, nErr = pc->rec.nErr;
+        std::string h2 = finalParse(pf.get(), dd[1]).substr(0, 2);
+        std::string B = h2 + " R[" + verdicts(pf->rec.errs) + "]";
+        return compare(A, B, nEv, nErr) + " # pool " + poolKeys(pc->pool);
+    }
     if (mode == "lg") {
         applyOp(pc.get(), "lg:" + t[4] + ":" + t[5] + ":1", hs, false);
         pc->set("usecache", 1);
